@@ -129,6 +129,13 @@ theorem hbar_select {K : Type} [Field K] (s t : K) (hs : s ≠ 0) (ht : t ≠ 0)
   unfold homodyneReturned homodyneSelectToCircuit
   constructor <;> field_simp
 
+/-- **select_zero_postselects.**  Every supplied post-selection value — zero included — takes the post-selection branch -/
+theorem select_zero_postselects {α : Type} (v : α) : postSelects (some v) = true ∧ postSelects (none : Option α) = false :=
+  ⟨rfl, rfl⟩
+
+/-- testing the value for truth instead (seeded C06-c2) sends `select = 0` to the sampling branch -/
+theorem select_truthiness_counterexample : postSelectsTruthy (some (0 : Int)) ≠ postSelects (some (0 : Int)) := by decide
+
 /-! ### photon counting on the Fock back end -/
 
 /-- **fock_outcome_order.**  For every list `measure` of distinct modes of an `n`-mode register, in any order,
